@@ -573,8 +573,8 @@ impl Check for C16 {
     }
     fn runs(&self, tier: Tier) -> u64 {
         match tier {
-            Tier::Quick => 300_000,
-            Tier::Thorough => 20_000_000,
+            Tier::Quick => 600_000,
+            Tier::Thorough => 100_000_000,
         }
     }
     fn generate(&self, rng: &mut Rng, index: u64, _tier: Tier) -> Scenario {
